@@ -389,3 +389,39 @@ def classify(dialect, data, listo):
         return (ILL, None)
     s, text = listing(dialect, lines, listo)
     return (s, text if s == WELL else None)
+
+
+def listing_lines(dialect, lines, listo):
+    """Like listing() but line by line and covering lines that both open and close loops of the same kind.
+    Returns (status, [set of acceptable renderings per line]).  For a line that closes c and opens o loops the
+    indentation of *following* lines is determined (indent - 2c + 2o, which must stay >= 0); the indentation of the
+    line itself is what the manual leaves open (at the enclosing loop's level, or at the current level), so both
+    are accepted for that line only."""
+    t = Tables(dialect)
+    out = []
+    indent = 0
+    for num, body in lines:
+        st, text, loops = decode_line_body(t, body)
+        if st != WELL:
+            return (st, out)
+        f, nx, rp, un = loops
+        if not (listo & 2):
+            f = nx = 0
+        if not (listo & 4):
+            rp = un = 0
+        closes, opens = nx + un, f + rp
+        after = indent - 2 * closes + 2 * opens
+        if after < 0:
+            return (OUT, out)
+        head = (b'%5d' % num) if num else b'     '
+        if listo & 1:
+            head += b' '
+        if closes and opens:
+            cands = {max(indent - 2 * closes, 0), indent}
+        else:
+            if indent - 2 * closes < 0:
+                return (OUT, out)
+            cands = {indent - 2 * closes}
+        out.append(set(head + b' ' * k + text + b'\n' for k in cands))
+        indent = after
+    return (WELL, out)
